@@ -18,7 +18,7 @@ var ensureDocs = []string{
 	`{"a":[1,[2]],"b":{"0":{"1":2}}}`,
 	`[[[1,2,3]]]`,
 }
-var ensureToks = []string{"a", "b", "a~1b", "m~0n", "0", "1", "2", "5", "01", "+1"}
+var ensureToks = []string{"a", "b", "a~1b", "m~0n", "0", "1", "2", "5", "01", "+1", ""}
 
 var (
 	ensureOnce  sync.Once
@@ -87,6 +87,7 @@ func resolveAdded(out *jr.Value, path string) *jr.Value {
 func c14Ref(o V5Opts) ref.Opts {
 	r := o.Ref()
 	r.ZeroPaddedAreNames = true
+	r.EmptyTokens = true // "/a//b": the empty token names the member "" (RFC 6901), also where containers have to be created
 	return r
 }
 
@@ -514,6 +515,8 @@ func init() {
 						t = "-"
 					case r == 9 && c.R.Intn(20) == 0:
 						t = fmt.Sprint(50 + c.R.Intn(9000))
+					case r == 9 && c.R.Intn(3) == 0:
+						t = ""
 					default:
 						t = "n" + fmt.Sprint(c.R.Intn(3))
 					}
@@ -521,7 +524,7 @@ func init() {
 				}
 				valT := prof.Value(c.R, 2)
 				sc := &SeqCase{DocText: docT, Doc: doc, Ops: []ref.Op{{Kind: "add", Path: path, Value: mustParse(valT), HasValue: true}}, OpTexts: []string{OpText("add", path, "", valT, true)}}
-				e := ref.New(doc, o.Ref())
+				e := ref.New(doc, c14Ref(o))
 				if e.Step(sc.Ops[0]) == ref.OK {
 					cfg := &SeqCfg{Prof: prof, MissRate: 25, RootOK: false}
 					for k := c.R.Intn(5); k > 0; k-- {
